@@ -8,6 +8,9 @@
      rev                        ReviseFor{AppendSectors,FreeSectors,SectorRoots,FundAccounts,Replenish}
      renew                      RenewContract / RefreshContract{Partial,Full}Rollover + cost functions
      probeRev probeNew probeRenew   an accepted result altered in one field, with the real verdict
+     adm                        one RPC request (a case of Admission.tla realised at real magnitudes) with the
+                                verdict of the real Validate method and, if admitted, the constructor's
+                                result and the verdict of the real consensus validation
      v1form v1renew2 v1renew3 v1pay   rhp/v2, rhp/v3 (independent lines)
      limits                     MinRenterAllowance / MaxHostCollateral (independent lines)
 
@@ -108,6 +111,21 @@ ProbeNew(t, l) ==
 ProbeRenew(t, l, c) ==
   Check(ConsensusValidV2Renewal(t.before, t.r, t.child, t.ins, t.outs, t.fee) = t.accepted, l, "probe: transcribed renewal rules disagree with the real consensus verdict")
 
+\* ---- admission: request -> Validate -> constructor -> consensus --------------------------------
+\* t.kase: the abstract case with the gate the model expects (Admission.tla); t.req: the concrete request.
+\* Messages that start with "case:" blame the harness (the request it built is not the one the model chose).
+Adm(t, l, c) ==
+  LET g == GateOf(t.rpc, t.req) IN
+  /\ Check(IF t.live THEN c.live /\ t.before = c.fc ELSE ~c.live, l, "case: request against a contract the ledger does not hold")
+  /\ Check(t.kase.gate = g, l, "case: the realised request is not at the gate the model chose")
+  /\ IF t.vpanic THEN Reject(l, "Validate panicked") ELSE
+     /\ Check((g = "ok") = t.admitted, l,
+              IF t.admitted THEN "Validate admits a request the admission rule refuses: " \o g
+                            ELSE "Validate refuses a request the admission rule admits")
+     /\ Check(t.admitted => ~t.cpanic, l, "constructor or cost function panicked on an admitted request")
+     /\ Check((t.admitted /\ ~t.cpanic /\ ~t.cerr) => (t.submitted /\ t.accepted), l,
+              "admitted request: the constructor's result is refused by consensus")
+
 \* ---- v1-era constructors (independent lines) -------------------------------------
 V1Contract(t, l) ==
   /\ Check(Len(t.valid) = 2 /\ Len(t.missed) = 3, l, "v1 contract output layout")
@@ -187,6 +205,7 @@ Line(l) ==
     [] t.ev = "probeRev"   -> ProbeRev(t, l, cur)
     [] t.ev = "probeNew"   -> ProbeNew(t, l)
     [] t.ev = "probeRenew" -> ProbeRenew(t, l, cur)
+    [] t.ev = "adm"      -> Adm(t, l, cur)
     [] t.ev = "v1form"   -> V1Form(t, l)
     [] t.ev = "v1renew2" -> V1Renew2(t, l)
     [] t.ev = "v1renew3" -> V1Renew3(t, l)
